@@ -264,6 +264,21 @@ def _r3(ctx, cg):
                     rec = True
             ctx.check(own and rec, "R3", "used-addresses=own-union-children-recursively", ctx.where(b),
                       "own addresses included: %s; recursion over all children in a loop: %s" % (own, rec))
+            # the children are visited whether or not the policy has an address set of its own
+            cond = False
+            for sbb, stm in b.terms():
+                if stm["k"] == "switch":
+                    d = norm(T.at_term(stm["discr"], sbb))
+                    if d[0] == "discr" and d[1][0] == "field" and d[1][2] == "apply_address":
+                        for i in (0, 1):
+                            es = discr_edges(cfg, sbb, i)
+                            for bb, tm in ext:
+                                a = norm(T.call_args(bb)[1])
+                                if any(y[0] == "call" and y[1] == fid for y in subterms(a)) and edge_dominated(cfg, es, bb):
+                                    cond = True
+            ctx.check(not cond, "R3", "children-visited-regardless-of-own-set", ctx.where(b),
+                      "addresses reserved by sub-policies are used addresses even when the policy has its own set (the parser has already "
+                      "subtracted them from that set): the recursion must not depend on apply_address being absent/present")
     ctx.floor("R3", "Policy::get_all_used_addresses", n, 1)
 
 
